@@ -29,5 +29,5 @@ for p in "$@"; do
   echo "== ./check $p quick with the patch applied to /repo"
   ./check $p quick 2>&1 | grep -E "^  \[|^VIOLATION|^OK|MACH|^C[0-9]" | cut -c1-260 | head -8
 done
-git -C /repo checkout -- .
+git -C /repo checkout -- . ; git -C /repo clean -fdq
 git -C /repo status --short | head -3
